@@ -143,7 +143,7 @@ def build_harness(race=False, tags="verif"):
         cmd += ["-race"]
     if os.environ.get("VERIF_COVERDIR"):
         # coverage survey of the library under the drivers (tools/libcover.sh): every process that runs this binary writes its counters to GOCOVERDIR
-        cmd += ["-cover", "-coverpkg=github.com/thomasjungblut/go-sstables/..."]
+        cmd += ["-cover", "-coverpkg=all"]
         os.environ["GOCOVERDIR"] = os.environ["VERIF_COVERDIR"]
     cmd += ["-o", out, "./cmd/vdrv"]
     t0 = time.time()
